@@ -749,10 +749,7 @@ func TestVerifC15(t *testing.T) {
 	scs := c15Scenarios(seed, thorough)
 
 	// shards: each with its own node under test and its own two feedback nodes
-	shards := 8
-	if thorough {
-		shards = 12
-	}
+	shards := 16
 	if only >= 0 {
 		shards = 1
 	}
@@ -800,8 +797,8 @@ func TestVerifC15(t *testing.T) {
 					continue
 				}
 				// feeding reports back costs five more passes through a Core each: quick does it for a
-				// deterministic sample of the scenarios, thorough (and a replay) for all
-				doCascade := thorough || only >= 0 || sc.idx%4 == int(seed%4)
+				// deterministic sixth of the scenarios, thorough (and a replay) for all
+				doCascade := thorough || only >= 0 || sc.idx%6 == int(seed%6)
 				line := c15Run(node, []*c15Node{rnode, qnode}, sc, base, doCascade)
 				outs[sh].lines = append(outs[sh].lines, line...)
 				histMu.Lock()
